@@ -229,6 +229,31 @@ def graph_cases():
 
 
 
+def recursion_cases():
+    """pipelines which call each other: nothing in a call without bindings needs the
+    callee to be compiled already, so only a check of the calls themselves can refuse these"""
+    def pl(name, calls, params=False):
+        body = b"".join(b"    call %s(\n    )\n" % c for c in calls)
+        return b"pipeline %s(\n)\n{\n%s    return (\n    )\n}\n\n" % (name, body)
+    stage = b"stage S(\n    src py \"s\",\n)\n\n"
+    top = lambda n: b"call %s(\n)\n" % n
+    out = []
+    def c(cid, src):
+        out.append(case("rec:" + cid, "callgraph", src))
+    c("mutual", pl(b"A", [b"B"]) + pl(b"B", [b"A"]) + top(b"A"))
+    c("mutual_top_b", pl(b"A", [b"B"]) + pl(b"B", [b"A"]) + top(b"B"))
+    c("cycle3", pl(b"A", [b"B"]) + pl(b"B", [b"C"]) + pl(b"C", [b"A"]) + top(b"A"))
+    c("cycle_below_top", stage + pl(b"A", [b"S", b"B"]) + pl(b"B", [b"C"]) + pl(b"C", [b"S", b"B"]) + top(b"A"))
+    c("cycle_with_stage", stage + pl(b"A", [b"S", b"B"]) + pl(b"B", [b"S", b"A"]) + top(b"A"))
+    c("self", pl(b"A", [b"A"]) + top(b"A"))
+    c("alias_cycle", b"pipeline A(\n)\n{\n    call B as X(\n    )\n    return (\n    )\n}\n\n"
+      + b"pipeline B(\n)\n{\n    call A as Y(\n    )\n    return (\n    )\n}\n\n" + top(b"A"))
+    # not recursive: a diamond of pipelines without parameters, callee declared before and after
+    c("diamond_ok", stage + pl(b"D", [b"S"]) + pl(b"B", [b"D"]) + pl(b"C", [b"D"]) + pl(b"A", [b"B", b"C"]) + top(b"A"))
+    c("forward_ok", stage + pl(b"A", [b"B"]) + pl(b"B", [b"S"]) + top(b"A"))
+    return out
+
+
 def incl_case(i, row):
     """a row of spec/Incl.tla: the top file includes one file per element of row["seq"]"""
     files = {}
